@@ -32,6 +32,10 @@ func main() {
 		cmdPlanTraceCheck(a)
 	case "cli-replay":
 		cmdCliReplay(a)
+	case "cli-io-replay":
+		cmdCliIoReplay(a)
+	case "cli-io-trace-check":
+		cmdCliIoTraceCheck(a)
 	case "conc-worker":
 		cmdConcWorker(a)
 	case "conc-replay":
